@@ -25,6 +25,11 @@ def run(ctx):
                     ctx.breaks.append(b)
                     continue
                 bad = [m for m in mism if "ascending" in m]
+                for m in [m for m in mism if "livelock" in m][:3]:
+                    parts = m.split(" :: ")
+                    ctx.add_violation("retry:" + parts[1].split()[1], "a request retried without anybody else having committed: " + parts[-1][:200],
+                                      {"how": "transactions of one request of a sequential run, recorded by the fstxn hooks (harness seq -locks); validator LockSched.retriesCharged",
+                                       "trace": parts[-1], "trace_prefix": seqlib.context_before(ls, "# " + " :: ".join(parts[1:]))})
                 if mism:
                     ctx.breaks.append(Break("correspondence", "recorded lock traces violate the discipline (%d, %d of them ordering)" % (len(mism), len(bad)),
                                             "\n".join(mism[:8])))
@@ -40,9 +45,13 @@ def run(ctx):
         ctx, "proof",
         "theorem ordered_no_deadlock: in the waits-for model of the lock manager, if every lock request is above what its transaction holds (the only exception being "
         "a transaction's own fresh allocation, whose other holders never wait), no set of transactions is deadlocked and some transaction can always step. The hypothesis is "
-        "CHECKED on the recorded acquisition sequence of every transaction of every run (sequential runs suffice: order is a property of the code path); watchdogs search for hangs",
+        "CHECKED on the recorded acquisition sequence of every transaction of every run (sequential runs suffice: order is a property of the code path); watchdogs search for hangs. "
+        "theorems retry_bounded / retry_bounded_explicit / no_run_stops_early (M10c, the lock manager as a transition system with abort-and-retry): every schedule of N requests whose restarts are "
+        "within a fixed budget or charged to a transaction that finished meanwhile has at most N((N+F)(L+1)+L+1) steps, keeps the discipline, and cannot stop before every request is answered; "
+        "the charging hypothesis is CHECKED on every request of every sequential run (validator retriesCharged: own restarts beyond one need a commit in between)",
         "seq -locks: all scenarios (renames with the four inodes in every relative order, directories numbered above their files, stale handles, cold caches after restart) and random "
         "sequences, every transaction's lock/commit events validated by the Lean driver; conc: clients on shared names with yields injected at lock and commit events, same validation + a 15 s no-progress watchdog",
-        ["fair scheduling of sync.Cond waiters in lockmap", "a creating operation's second acquisition is taken to be its own fresh allocation"],
-        pending=["retry_bounded (each retry is charged to a commit of another transaction)"],
+        ["fair scheduling of sync.Cond waiters in lockmap", "a creating operation's second acquisition is taken to be its own fresh allocation",
+         "M10c has no fresh-allocation requests (those are covered by ordered_no_deadlock); in concurrent runs the commits a retry is charged to are other clients' and are not validated, only the watchdog applies"],
+        pending=[],
         partial=["the theorem quantifies over all schedules of the lock-manager model; the runtime's scheduler is observed, not quantified over"])
